@@ -378,9 +378,9 @@ func c20Links(r *core.Run, p *core.Program) {
 			continue
 		}
 		type st struct {
-			ins         *ssa.Store
-			field       string
-			owner, val  string
+			ins          *ssa.Store
+			field        string
+			owner, val   string
 			ownerV, valV ssa.Value
 		}
 		var stores []st
